@@ -1,6 +1,6 @@
 #!/bin/bash
 # MANIFEST.setup_cmd: builds the framework from files on disk only (offline).
-set -e
+set -e -o pipefail
 cd "$(dirname "$0")"
 export GOFLAGS=-mod=mod GOPROXY=off GOSUMDB=off GOTOOLCHAIN=local
 REPO=${VERIF_REPO:-/repo}
